@@ -8,7 +8,8 @@
    [snapshot_ops_chunks] is the same protocol with the bytes written in arbitrary pieces (the atomicity theorem is
    proved for every chunking); [snapshot_ops] is what the code does. The harness compares the strace of the real
    Maintenance shutdown snapshot with [snapshot_ops]. *)
-From AM Require Import Base.Prelude Model.FsCrash.
+From AM Require Import Base.Prelude Model.FsCrash Model.Nflog Model.Wire.
+From stdpp Require Import pretty.
 
 Definition snapshot_ops_chunks (tmp target : string) (chunks : list (list N)) : list fsop :=
   Create tmp :: map (Write tmp) chunks ++ [Fsync tmp; Close tmp; Rename tmp target].
@@ -23,8 +24,6 @@ Definition snapshot_bytes (s : fs) (target : string) : list N :=
   match content s target with Some b => b | None => [] end.
 
 (* ---------- loading: decodeState + loadSnapshot of both packages ---------- *)
-From AM Require Import Model.Nflog Model.Wire.
-From stdpp Require Import pretty.
 
 (* nflog.receiverKey / stateKey *)
 Definition recv_key (r : wrecv) : string :=
@@ -85,3 +84,21 @@ Definition prepare_meshsil (m : wmeshsil) : wmeshsil :=
   mkMS (option_map prepare_silence (ms_sil m)) (ms_exp m).
 Definition snapshot_silences (st : list wmeshsil) : list N := encode_silences (map prepare_meshsil st).
 Definition snapshot_nflog (st : list wmesh) : list N := encode_nflog st.
+
+(* the loaded state, listed by key, of a store content in which every record has a key and keys are unique *)
+Definition keyed_nflog (st : list wmesh) : list (string * wmesh) :=
+  map (fun m => (default "" (mesh_key m), m)) st.
+Definition nflog_keys_ok (st : list wmesh) : bool :=
+  forallb (fun m => match mesh_key m with Some _ => true | None => false end) st && keys_unique (keyed_nflog st).
+
+(* in-memory silences are in normal form: legacy matcher list and comments list empty (decodeState / loadSnapshot /
+   state.merge clear them) *)
+Definition sil_id (m : wmeshsil) : string := match ms_sil m with Some s => ws_id s | None => "" end.
+Definition keyed_silences (st : list wmeshsil) : list (string * wmeshsil) := map (fun m => (sil_id m, m)) st.
+Definition silence_normal (m : wmeshsil) : bool :=
+  match ms_sil m with
+  | Some s => match ws_matchers s, ws_comments s with [], [] => true | _, _ => false end
+  | None => false
+  end.
+Definition silences_keys_ok (st : list wmeshsil) : bool :=
+  forallb silence_normal st && keys_unique (keyed_silences st).
